@@ -176,6 +176,7 @@ async def recover(base, layout):
             problems.append(f'EXAMINE {n} after restart: {raw[-160:]!r} {c.crashed()!r}')
             continue
         validity[n] = int(re.search(rb'\[UIDVALIDITY (\d+)\]', raw).group(1))
+        uidnext = int(re.search(rb'\[UIDNEXT (\d+)\]', raw).group(1))
         raw = await c.send(b'r UID FETCH 1:* (UID FLAGS RFC822.SIZE)\r\n')
         if b'r OK' not in raw:
             problems.append(f'FETCH in {n} after restart: {raw[-160:]!r} {c.crashed()!r}')
@@ -188,6 +189,8 @@ async def recover(base, layout):
                 if uid in msgs:
                     problems.append(f'UID {uid} listed twice in {n}')
                 msgs[uid] = (l3.cid_of_size(int(f[1][b'RFC822.SIZE'].val), lf=True), l3.canon_flags(f[1][b'FLAGS'])[0])
+        if msgs and uidnext <= max(msgs):
+            problems.append(f'UIDNEXT {uidnext} announced for {n} after the restart, but UID {max(msgs)} exists')
         boxes[n] = msgs
     subs = set()
     if not c.task.done():
